@@ -13,6 +13,7 @@ IMPL = re.compile(r'^[sd][0-9]{10}\.c$')      # restated from the documentation,
 NEAR = ['s0000000001.c', 'd0000000002.c', 'x0000000001.c', 'S0000000001.c', 's000000001.c', 's00000000001.c', 's000000000a.c', 's0000000001.h',
         's0000000001.cc', 's0000000001.c~', 'datasegments', 'out.h', 'other.c', 'ss000000001.c', 'd00000000010c', 's0000000001.C', 'd-000000001.c', 'd0000000009.c.bak',
         # 13 characters, s/d in front, .c at the end, but a dot / a blank / a sign inside the ten-character field
+        'out.c.tmp', 'out.tmp', 'out.c~', 'out.h.tmp', '.out.c.swp', 'out.c.bak', 'out.c.new',     # names an "atomic replace" / editor would use
         'd2024.01.02.c', 's00000000.c.c', 's.123456789.c', 's 000000001.c', 'd+000000001.c', 's0x00000001.c', 'd00000000.1.c']
 LONGDIR = 'L' * 250        # < NAME_MAX, but the directory PART of the output path is then longer than 255 bytes
 
